@@ -117,6 +117,9 @@ impl MT940 {
             Some(forward_balances)
         };
 
+        // Verify all content is consumed
+        crate::parser::utils::verify_parser_complete(&parser)?;
+
         Ok(MT940 {
             field_20,
             field_21,
